@@ -223,6 +223,19 @@ pub fn c07(tier: &str) -> i32 {
         q.create_place = false;
         plans.push(plan(&format!("in-memory reload, LEVELS {}", l), q, l, if t { 4 } else { 3 }));
     }
+    // tick sizes that do not divide 2^32-1 (the sentinel price of a buy market order), with
+    // unplaced orders of every kind present at the snapshot point
+    for tick in [2u32, 7, 10] {
+        let mut q = snapshot_profile(&format!("snapshot-tick{}", tick));
+        q.tick = tick;
+        q.prices = vec![10 * tick, 11 * tick];
+        q.limit_vols = vec![2];
+        q.market_vols = vec![1];
+        q.modify_vols = vec![1];
+        q.max_unplaced = 2;
+        q.reload_modes = vec![if tick == 2 { 1 } else { 0 }];
+        plans.push(plan(&format!("tick {}: unplaced limit and market orders at the snapshot point", tick), q, 3, if t { 4 } else { 3 }));
+    }
     with_bases(&mut plans, "snapshot", &p, 3, if t { 3 } else { 2 });
     execute(
         &mut out,
